@@ -30,6 +30,8 @@ You can obtain one at http://mozilla.org/MPL/2.0/.
 #include "libfive/render/brep/hybrid/hybrid_worker_pool.hpp"
 #include "libfive/render/brep/hybrid/hybrid_mesher.hpp"
 
+#include "libfive/verif.hpp"
+
 namespace libfive {
 
 std::unique_ptr<Mesh> Mesh::render(const Tree& t_, const Region<3>& r,
@@ -56,20 +58,27 @@ std::unique_ptr<Mesh> Mesh::render(
             // Pool::build, Dual::walk, t.reset
             settings.progress_handler->start({1, 1, 1});
         }
+        LIBFIVE_VERIF_POINT(verif::SITE_RENDER_PHASE, verif::PHASE_BUILD, 0);
         auto t = DCWorkerPool<3>::build(es, r, settings);
+        LIBFIVE_VERIF_POINT(verif::SITE_RENDER_PHASE, verif::PHASE_BUILD, 1);
 
         if (settings.cancel.load() || t.get() == nullptr) {
             if (settings.progress_handler) {
                 settings.progress_handler->finish();
             }
+            LIBFIVE_VERIF_POINT(verif::SITE_RENDER_PHASE, verif::PHASE_RETURN, 0);
             return nullptr;
         }
 
         // Perform marching squares
+        LIBFIVE_VERIF_POINT(verif::SITE_RENDER_PHASE, verif::PHASE_WALK, 0);
         out = Dual<3>::walk<DCMesher>(t, settings);
+        LIBFIVE_VERIF_POINT(verif::SITE_RENDER_PHASE, verif::PHASE_WALK, 1);
 
         // TODO: check for early return here again
+        LIBFIVE_VERIF_POINT(verif::SITE_RENDER_PHASE, verif::PHASE_RESET, 0);
         t.reset(settings);
+        LIBFIVE_VERIF_POINT(verif::SITE_RENDER_PHASE, verif::PHASE_RESET, 1);
     }
     else if (settings.alg == ISO_SIMPLEX)
     {
@@ -77,22 +86,31 @@ std::unique_ptr<Mesh> Mesh::render(
             // Pool::build, Dual::walk, t->assignIndices, t.reset
             settings.progress_handler->start({1, 1, 1});
         }
+        LIBFIVE_VERIF_POINT(verif::SITE_RENDER_PHASE, verif::PHASE_BUILD, 0);
         auto t = SimplexWorkerPool<3>::build(es, r, settings);
+        LIBFIVE_VERIF_POINT(verif::SITE_RENDER_PHASE, verif::PHASE_BUILD, 1);
 
         if (settings.cancel.load() || t.get() == nullptr) {
             if (settings.progress_handler) {
                 settings.progress_handler->finish();
             }
+            LIBFIVE_VERIF_POINT(verif::SITE_RENDER_PHASE, verif::PHASE_RETURN, 0);
             return nullptr;
         }
 
+        LIBFIVE_VERIF_POINT(verif::SITE_RENDER_PHASE, verif::PHASE_INDEX, 0);
         t->assignIndices(settings);
+        LIBFIVE_VERIF_POINT(verif::SITE_RENDER_PHASE, verif::PHASE_INDEX, 1);
 
+        LIBFIVE_VERIF_POINT(verif::SITE_RENDER_PHASE, verif::PHASE_WALK, 0);
         out = Dual<3>::walk_<SimplexMesher>(t, settings,
                 [&](PerThreadBRep<3>& brep, int i) {
                     return SimplexMesher(brep, &es[i]);
                 });
+        LIBFIVE_VERIF_POINT(verif::SITE_RENDER_PHASE, verif::PHASE_WALK, 1);
+        LIBFIVE_VERIF_POINT(verif::SITE_RENDER_PHASE, verif::PHASE_RESET, 0);
         t.reset(settings);
+        LIBFIVE_VERIF_POINT(verif::SITE_RENDER_PHASE, verif::PHASE_RESET, 1);
     }
     else if (settings.alg == HYBRID)
     {
@@ -100,27 +118,37 @@ std::unique_ptr<Mesh> Mesh::render(
             // Pool::build, Dual::walk, t->assignIndices, t.reset
             settings.progress_handler->start({1, 1, 1});
         }
+        LIBFIVE_VERIF_POINT(verif::SITE_RENDER_PHASE, verif::PHASE_BUILD, 0);
         auto t = HybridWorkerPool<3>::build(es, r, settings);
+        LIBFIVE_VERIF_POINT(verif::SITE_RENDER_PHASE, verif::PHASE_BUILD, 1);
 
         if (settings.cancel.load() || t.get() == nullptr) {
             if (settings.progress_handler) {
                 settings.progress_handler->finish();
             }
+            LIBFIVE_VERIF_POINT(verif::SITE_RENDER_PHASE, verif::PHASE_RETURN, 0);
             return nullptr;
         }
 
+        LIBFIVE_VERIF_POINT(verif::SITE_RENDER_PHASE, verif::PHASE_INDEX, 0);
         t->assignIndices(settings);
+        LIBFIVE_VERIF_POINT(verif::SITE_RENDER_PHASE, verif::PHASE_INDEX, 1);
 
+        LIBFIVE_VERIF_POINT(verif::SITE_RENDER_PHASE, verif::PHASE_WALK, 0);
         out = Dual<3>::walk_<HybridMesher>(t, settings,
                 [&](PerThreadBRep<3>& brep, int i) {
                     return HybridMesher(brep, &es[i]);
                 });
+        LIBFIVE_VERIF_POINT(verif::SITE_RENDER_PHASE, verif::PHASE_WALK, 1);
+        LIBFIVE_VERIF_POINT(verif::SITE_RENDER_PHASE, verif::PHASE_RESET, 0);
         t.reset(settings);
+        LIBFIVE_VERIF_POINT(verif::SITE_RENDER_PHASE, verif::PHASE_RESET, 1);
     }
 
     if (settings.progress_handler) {
         settings.progress_handler->finish();
     }
+    LIBFIVE_VERIF_POINT(verif::SITE_RENDER_PHASE, verif::PHASE_RETURN, out.get() ? 1 : 0);
     return out;
 }
 
